@@ -997,7 +997,7 @@ val set_quota_r : arith -> est -> t res -> est
 
 val elected_surplus : arith -> est -> t
 
-val update_kfs : arith -> est -> est
+val update_kfs : arith -> bool -> est -> est
 
 val meek_iter_head : arith -> config -> est -> est
 
